@@ -253,6 +253,118 @@ def stream_weights(run, zones, only=None):
     return "weights", list(uniq), list(uniq.values()), "check_weights"
 
 
+
+# ------------------------------------------------------------------ stream 1b: segment_time_series on parts of a year, with and without
+#                                                                     drop_zero_weight_segments
+
+def sub_indexes(rng, zone, year):
+    """(label, index): single months, two months, a partial year, a few days across a month end, single hours"""
+    out = []
+    for m in sorted({1, 12} | set(rng.sample(range(1, 13), 3))):
+        a = pd.Timestamp(year=year, month=m, day=1, tz=zone)
+        b = pd.Timestamp(year=year + (m == 12), month=m % 12 + 1, day=1, tz=zone)
+        out.append(("month %d" % m, pd.date_range(a, b, freq="h", inclusive="left")))
+    m = rng.randrange(1, 12)
+    out.append(("months %d-%d" % (m, m + 1), pd.date_range(pd.Timestamp(year=year, month=m, day=1, tz=zone),
+                                                           pd.Timestamp(year=year + (m == 11), month=(m + 1) % 12 + 1, day=1, tz=zone),
+                                                           freq="h", inclusive="left")))
+    a = pd.Timestamp(year=year, month=1, day=1, tz=zone) + pd.Timedelta(days=rng.randrange(0, 250))
+    out.append(("partial year", pd.date_range(a, periods=24 * rng.randrange(70, 200), freq="h")))
+    a = pd.Timestamp(year=year, month=rng.randrange(1, 13), day=1, tz=zone) - pd.Timedelta(days=2)
+    out.append(("month end", pd.date_range(a, periods=24 * 4, freq="h")))
+    for _ in range(2):
+        a = pd.Timestamp(year=year, month=1, day=1, tz=zone) + pd.Timedelta(hours=rng.randrange(0, 8700))
+        out.append(("single hour", pd.date_range(a, periods=1, freq="h")))
+    return out
+
+
+def stream_weights_partial(run, zones, only=None):
+    import random
+    from opendsm.eemeter.models.hourly_caltrack.segmentation import segment_time_series
+    terms, meta = [], []
+    for zone in zones:
+        for year in YEARS:
+            if only and (only.get("zone"), only.get("year")) != (zone, year):
+                continue
+            sub_seed = only["sub_seed"] if only else run.rng.randrange(10**9)
+            full_idx = year_index(zone, year)
+            full_month = local_fields(full_idx, zone)[:, 0]
+            for typ in TYPES:
+                # the weights above zero an hour of month m has over the whole year (checked against the statement in `weights`)
+                try:
+                    full = segment_time_series(full_idx, typ)
+                except Exception:  # noqa  (reported by the weights stream)
+                    continue
+                fcols = [str(c) for c in full.columns]
+                fW = full.to_numpy(dtype=float)
+                ref = {}
+                for m in range(1, 13):
+                    r = fW[np.nonzero(full_month == m)[0][0]]
+                    ref[m] = {c: Fraction(float(w)) for c, w in zip(fcols, r) if w > 0}
+                for label, idx in sub_indexes(random.Random(sub_seed), zone, year):
+                    month = local_fields(idx, zone)[:, 0]
+                    present = sorted(set(int(x) for x in month))
+                    frames = {}
+                    for drop in (False, True):
+                        case = {"stream": "weights_partial", "zone": zone, "year": year, "segment_type": typ, "sub_seed": sub_seed,
+                                "index": label, "first_hour": idx[0].isoformat(), "hours": len(idx), "drop_zero_weight_segments": drop}
+                        try:
+                            df = segment_time_series(idx, typ, drop_zero_weight_segments=drop)
+                        except Exception as e:  # noqa
+                            run.violation({"stream": "weights_partial", "broken": "raises", "type": typ, "drop": drop, "raised": type(e).__name__},
+                                          "C18 segment_time_series(%s, drop=%s) on %s raised %s" % (typ, drop, label, type(e).__name__),
+                                          case=case, generator="c18.weights_partial")
+                            continue
+                        frames[drop] = df
+                        cols = [str(c) for c in df.columns]
+                        W = df.to_numpy(dtype=float)
+                        run.count(("weights_partial", typ, zone, year, label, drop, tuple(present)), True, n=len(idx))
+                        run.dist("partial_index_kind", "%s drop=%s" % (label.split(" ")[0], drop))
+                        bad = None
+                        if not df.index.equals(idx):
+                            bad = ("index changed", "the result does not share the input index", 0)
+                        rows = {}
+                        for m in present:
+                            sel = np.nonzero(month == m)[0]
+                            block = W[sel]
+                            if bad is None and len(cols) and (not (block == block[0]).all() or np.isnan(block).any()):
+                                bad = ("weights differ within a month", "hours of month %d carry different weights" % m, int(sel[0]))
+                            rows[m] = {c: Fraction(float(w)) for c, w in zip(cols, block[0])} if len(cols) else {}
+                            pos = {c: w for c, w in rows[m].items() if w > 0}
+                            if bad is None and pos != ref[m]:
+                                lost = sorted(set(ref[m]) - set(pos))
+                                bad = ("an hour lost a weight" if lost else "weights differ from the whole-year weights",
+                                       "an hour of month %d has the weights %s, over the whole year it has %s%s"
+                                       % (m, {k: str(v) for k, v in pos.items()}, {k: str(v) for k, v in ref[m].items()},
+                                          " (missing: %s)" % lost if lost else ""), int(sel[0]))
+                        if bad is None and drop and False in frames:
+                            und = frames[False]
+                            gone = [c for c in und.columns if c not in df.columns]
+                            nz = [str(c) for c in gone if (und[c].to_numpy(dtype=float) != 0).any()]
+                            if nz:
+                                bad = ("a column with non-zero weights was dropped", "dropped columns %s hold non-zero weights" % nz, 0)
+                            elif [c for c in df.columns if c not in und.columns] or not und[list(df.columns)].equals(df):
+                                bad = ("kept columns changed", "the kept columns differ from the undropped result", 0)
+                        if bad:
+                            run.violation({"stream": "weights_partial", "broken": bad[0], "type": typ, "drop": drop},
+                                          "C18 segment_time_series(%s, drop_zero_weight_segments=%s) on %s [%s] at %s: %s"
+                                          % (typ, drop, label, zone, idx[bad[2]].isoformat(), bad[1]),
+                                          case=dict(case, hour=idx[bad[2]].isoformat()), observation={"columns": cols},
+                                          expected="weight 1 in the month's own segment, 1/2 in its neighbours' (weighted), 0 elsewhere; "
+                                                   "only all-zero columns dropped", generator="c18.weights_partial")
+                        for m in present:
+                            obs = coq_list(["(%s, %s)" % (coq_string(c), qlit(w)) for c, w in sorted(rows[m].items())])
+                            terms.append("(%s, %s, %s, %s, %s)" % (coq_string(typ), coq_bool(drop), coq_list([zlit(x) for x in present]),
+                                                                   zlit(m), obs))
+                            meta.append(dict(case, month=m, months_in_index=present))
+    uniq = {}
+    for t, mt in zip(terms, meta):
+        uniq.setdefault(t, mt)
+    if uniq:
+        run.sample(list(uniq.values())[min(len(uniq) - 1, 11)])
+    return "weights_partial", list(uniq), list(uniq.values()), "check_weights_on"
+
+
 # ------------------------------------------------------------------ stream 2: compute_temperature_bin_features
 
 def ulp_neighbours(x):
@@ -1157,7 +1269,7 @@ def table_free_theorems(run):
 CONSTRUCTORS = {
     "check_weights": "Old (CWeights %s)", "check_bins_float": "Old (CBinsF %s)", "check_bins_q": "Old (CBinsQ %s)",
     "check_how": "Old (CHow %s)", "check_occupancy": "Old (COccupancy %s)", "check_prediction": "Old (CPrediction %s)",
-    "check_prediction_on": "Old (CPredictionOn %s)", "check_unc": "Old (CUnc %s)",
+    "check_prediction_on": "Old (CPredictionOn %s)", "check_unc": "Old (CUnc %s)", "check_weights_on": "Old (CWeightsOn %s)",
     "check_fit_bins": "CFitBins %s", "check_fit_api": "CFitApi %s", "check_occupancy_rule": "COccRule %s",
 }
 
@@ -1197,6 +1309,10 @@ def model_says(run, stream, mt):
             return run.coq_eval(IMPORTS, "", "segment_weights %s %s" % (coq_string(mt["segment_type"]), zlit(mt["month"])))
         if stream in ("routing", "fit"):
             return run.coq_eval(IMPORTS, "", "prediction_segment %s %s" % (coq_string("three_month_weighted"), zlit(mt["month"])))
+        if stream == "weights_partial":
+            return run.coq_eval(IMPORTS, "", "segment_weights_on %s %s %s %s" % (
+                coq_string(mt["segment_type"]), coq_bool(mt["drop_zero_weight_segments"]),
+                coq_list([zlit(x) for x in mt["months_in_index"]]), zlit(mt["month"])))
         if stream == "routing_partial":
             return run.coq_eval(IMPORTS, "", "prediction_terms_on %s [] %s %s" % (
                 coq_list([zlit(x) for x in mt["months_in_index"]]), coq_string(mt["fit_type"]), zlit(mt["month"])))
@@ -1209,7 +1325,9 @@ def main():
     run = Run("C18")
     run.cov["rule"] = (
         "weights: segment_time_series on every hour of 2023 and 2024 in %d zones x 4 segment types, one case per distinct "
-        "(type, local month, weight row), local month taken from zoneinfo; bins: compute_temperature_bin_features on all 64 "
+        "(type, local month, weight row), local month taken from zoneinfo; weights_partial: the same on single months, two months, "
+        "a partial year, four days across a month end and single hours per zone and year, with drop_zero_weight_segments False "
+        "and True (distinct = type x index x flag); bins: compute_temperature_bin_features on all 64 "
         "subsets of the candidate endpoints plus random increasing endpoint lists of length 0-12, temperatures = every endpoint "
         "-1ulp/exact/+1ulp, +-1/8, +-1/2, negative, zero, denormal, 1e300, max double, NaN, random (distinct = endpoint list x "
         "temperature; region histogram in `distribution`); how: compute_time_features on every hour of both years per zone "
@@ -1274,6 +1392,9 @@ def main():
     if st in (None, "weights"):
         results.append(stream_weights(run, zones, only))
         run.log("weights done")
+    if st in (None, "weights_partial"):
+        results.append(stream_weights_partial(run, zones, only))
+        run.log("weights_partial done")
     if st in (None, "bins"):
         results += stream_bins(run, only)
         run.log("bins done")
